@@ -200,6 +200,15 @@ class Hub:
     def do_kill(self):
         step, pid, restart = self.kill
         self.killed = True
+        if isinstance(pid, str):
+            # "job:<name>": the (first live) job process of that name dies abruptly - no marker, no cleanup
+            name = pid.split(":", 1)[1]
+            vp = next((v for v in W.procs.values() if not v.exited and v.name == name), None)
+            if vp is not None:
+                vp.kill()
+                W.events.append(("KILLJOB", name, vp.vpid, step))
+            self.current = None
+            return
         victim = next(p for p in W.simprocs if p.pid == pid)
         victim.alive = False
         for path, owner in list(W.iplocks.items()):
@@ -307,6 +316,9 @@ class VLock:
     def acquire(self, blocking=True, timeout=-1):
         if _dead():
             return True
+        if W.fine is True and HUB.current is not None:
+            # a synchronisation operation of a real thread is a point where another thread may run first
+            HUB.yield_point()
         if self.owner is not None:
             if not blocking:
                 return False
@@ -483,7 +495,7 @@ def fs_event(kind, path):
     if p.endswith(".token"):
         W.events.append(("tok", proc.pid, kind, os.path.basename(os.path.dirname(p)), os.path.basename(p)[:8]))
     if fine_point(p):
-        W.events.append(("fs", proc.pid, kind, os.path.basename(p)))
+        W.events.append(("fs", proc.pid, kind, os.path.basename(p), os.path.basename(os.path.dirname(p))[:8]))
         HUB.yield_point()
 
 
